@@ -79,8 +79,8 @@ theorem C24_light_min_max_over (H : OpsOK) (Q : QueriesOK) (anno : Nat → SI) (
 
 /-! ## with the proved interval operations discharged
 
-`add, sub, neg, not, and, or, xor, zero_extend, sign_extend, extract, udiv, shl, lshr`, the join of `If`, and the eight orderings
-are proved (C21, C22), so for these no hypothesis is needed.  `OpsRest` (mul, urem, ashr, concat, the meet behind `==`/`!=`) is
+`add, sub, neg, not, and, or, xor, concat, zero_extend, sign_extend, extract, udiv, shl, lshr`, the join of `If`, and the eight
+orderings are proved (C21, C22), so for these no hypothesis is needed.  `OpsRest` (mul, urem, ashr, the meet behind `==`/`!=`) is
 consulted only if the AST uses one of them.  ASTs here have a value at every node (`DefBV`); the annotations are in the form
 the constructor returns (`Nrm`, which is the only form Python holds), and the induction shows every intermediate abstract
 value has it too — that is what the signed orderings need. -/
@@ -95,7 +95,8 @@ theorem C24_convert_sound_rest (anno : Nat → SI) (env : Nat → Nat)
   ⟨g.1.1, g.1.2, (g.2 v hv).1⟩
 
 /-- **unconditional** for ASTs built from the proved operations: variables with annotations, constants, `+ - neg ~ & | ^`,
-`ZeroExt`, `SignExt`, `Extract`, `/u`, `<<`, `LShR`, `If`, the unsigned and signed orderings and the Boolean connectives -/
+`ZeroExt`, `SignExt`, `Extract`, `Concat`, `/u`, `<<`, `LShR`, `If`, the unsigned and signed orderings and the Boolean
+connectives -/
 theorem C24_fragment_sound (anno : Nat → SI) (env : Nat → Nat)
     (hctx : ∀ i, (anno i).WF ∧ (anno i).mem (env i)) (hnrm : ∀ i, Nrm (anno i))
     (e : BV) (hfrag : usesRestBV e = false) (hdef : DefBV env e)
@@ -147,8 +148,9 @@ example : WTBV demoAnno (fun _ => 3) demoExpr := by
 example : usesRestB (.cmp .slt (.var 0 3) (.bin .sub (.var 0 3) (.const 1 3))) = false ∧ Nrm (demoAnno 0) :=
   ⟨by decide, nrm_new _ _ _ _ (by decide)⟩
 
-/-- the bitwise operations are inside the proved fragment -/
-example : usesRestBV (.bin .xor (.bin .and (.var 0 3) (.const 5 3)) (.bin .or (.var 0 3) (.const 2 3))) = false := by decide
+/-- the bitwise operations and `Concat` are inside the proved fragment -/
+example : usesRestBV (.concat (.bin .xor (.bin .and (.var 0 3) (.const 5 3)) (.bin .or (.var 0 3) (.const 2 3))) (.var 1 2)) =
+    false := by decide
 
 /-- the demo expression lies in the proved fragment and has a value at every node -/
 example : usesRestBV demoExpr = false ∧ DefBV (fun _ => 3) demoExpr := by
